@@ -150,7 +150,7 @@ PROPS = {
         "trusted_base": ["the harness (reflection-driven call sequences) decides on the real code; the Coq model is shallow"],
     },
     "C09": {
-        "coq_files": BASE + ["Label/", "Cost/", "Props/C09.v"],
+        "coq_files": BASE + ["Label/", "Cost/", "V4/", "V6/", "Props/C09.v"],
         "timeout": {"quick": 1200, "thorough": 6000},
         "rule": "adversarial families at sizes 64, 512, 1 k, 4 k, 16 k, 65507: compression-pointer fans (long name and maximal 253-octet name), unterminated label chains, runs of empty names, "
                 "IA_NA nested to n/16, relay messages nested to n/38, thousands of minimal options, vendor sub-options, empty boot parameters, large ORO, repeated / zero-length / one-octet "
